@@ -270,7 +270,14 @@ func GenUnmarshalFamily(w *Writer, r *Rng, t Tier) error {
 	for di := 0; di < t.Docs; di++ {
 		dr := r.Fork()
 		cfg := DefaultDocCfg()
-		cfg.TextPool = NumericTexts
+		// short texts only: string-length() of a node feeds uint8 fields, and Go's conversion of an
+		// out-of-range float to an integer type is implementation-defined
+		cfg.TextPool = nil
+		for _, s := range NumericTexts {
+			if len(s) < 40 {
+				cfg.TextPool = append(cfg.TextPool, s)
+			}
+		}
 		doc, err := w.NewDoc(fmt.Sprintf("d%d", di), GenEvents(dr, cfg))
 		if err != nil {
 			return err
